@@ -62,6 +62,10 @@ var oracles = map[string][]*oracle{}
 
 func registerOracle(o *oracle) { oracles[o.prop] = append(oracles[o.prop], o) }
 
+// oracleReplayers re-execute the input recorded in an oracle failure of a
+// property on the real code: (report text, failure still reproduces).
+var oracleReplayers = map[string]func(f oracleFailure) (string, bool){}
+
 // runGuarded runs a case with panic capture and a watchdog.
 func runGuarded(f *family, c *sx, timeout time.Duration) string {
 	done := make(chan string, 1)
@@ -122,6 +126,23 @@ func main() {
 		cmdOracle(*prop, *seed, *n, *out)
 	case "coqcases":
 		cmdCoqCases(*in, *k, *out)
+	case "oracle-replay":
+		// re-run the input of one recorded oracle failure (JSON in -case) on the real code
+		var f oracleFailure
+		if err := json.Unmarshal([]byte(*cs), &f); err != nil {
+			fmt.Fprintln(os.Stderr, "bad failure record:", err)
+			os.Exit(2)
+		}
+		rp := oracleReplayers[*prop]
+		if rp == nil {
+			fmt.Fprintln(os.Stderr, "no oracle replayer for", *prop)
+			os.Exit(2)
+		}
+		text, reproduced := rp(f)
+		fmt.Println(text)
+		if reproduced {
+			os.Exit(1)
+		}
 	case "families":
 		var names []string
 		for name := range families {
